@@ -208,6 +208,14 @@ def wire_row_problems(r, cls, state, subkinds):
         return ['exception %s escapes parse_buffer' % cval(r.val)], 'no exception'
     first = _first_fsm_event(r)
     ret = cval(r.val)
+    if first is None and cls in ('OPEN', 'NOTIFICATION', 'ROUTEREFRESH', 'UPDATE') and \
+            any(f.startswith('short-unpack@') for f in r.flags):
+        # a field inside the message is truncated (decoder raised, caught by parse_buffer): outside
+        # the property's event alphabet; only containment is required (no state change, or a clean
+        # error close)
+        subkinds.add('MALFORMED')
+        ok, probs, alt = P.evaluate([P.STAY(), P.TO_IDLE(1), P.TO_IDLE(2), P.TO_IDLE(3), P.TO_IDLE(5)], r)
+        return probs, 'malformed body: ignore or error close'
     if cls in ('SHORT', 'INCOMPLETE'):
         ok, probs, alt = P.evaluate(P.PROFILE['NOINPUT'][state], r)
         if first is not None:
